@@ -364,6 +364,85 @@ fn main() {
         }).reduce(Stats::default, Stats::merge)
     };
 
+    // (d2) the template engine's own vocabulary: every built-in filter, function and test of tera 1.20 applied to a pool of
+    // hostile values and arguments (zero, negative, the integer limits, fractions, text, objects, arrays), through the real binary
+    // with a 20 s horizon - a panic inside the engine, an abort on allocation or an endless loop is zerv's failure too
+    let s_d2 = {
+        let values = ["0", "-1", "99999999999999999", "9223372036854775807", "-9223372036854775808", "18446744073709551615", "1.5", "\"x\"", "\"\"", "bumped_branch", "custom", "[1, 2]", "[]", "true"];
+        let filters0 = ["lower", "upper", "wordcount", "capitalize", "addslashes", "slugify", "title", "trim", "trim_start", "trim_end", "linebreaksbr", "spaceless", "indent", "striptags", "first", "last", "length", "reverse", "sort", "unique",
+            "urlencode", "urlencode_strict", "pluralize", "round", "filesizeformat", "date", "escape", "escape_xml", "safe", "int", "float", "json_encode", "as_str", "abs", "join", "split", "nth", "slice", "truncate", "get", "replace", "default", "concat", "group_by", "filter", "map", "trim_start_matches", "trim_end_matches"];
+        let args = ["0", "-1", "1", "64", "18446744073709551615", "99999999999999999", "\"x\"", "\"\""];
+        let filters1 = ["truncate(length=A)", "nth(n=A)", "slice(start=A)", "slice(end=A)", "slice(start=A, end=0)", "round(precision=A)", "round(method=A)", "date(format=A)", "date(timezone=A)", "date(format=\"%Q\")", "int(base=A)", "int(default=A)", "split(pat=A)", "replace(from=A, to=\"y\")",
+            "indent(prefix=A)", "join(sep=A)", "get(key=A)", "get(key=A, default=1)", "trim_start_matches(pat=A)", "trim_end_matches(pat=A)", "default(value=A)", "json_encode(pretty=A)", "group_by(attribute=A)", "filter(attribute=A, value=1)", "map(attribute=A)", "concat(with=A)", "pluralize(singular=A, plural=A)", "truncate(length=A, end=A)"];
+        let functions = ["range(end=A)", "range(end=1, start=A)", "range(end=3, step_by=A)", "range(start=A, end=A)", "now()", "now(timestamp=true)", "now(utc=true)", "now(timestamp=A)", "get_random(end=A)", "get_random(start=A, end=1)", "get_random(start=A, end=A)",
+            "get_env(name=A)", "get_env(name=\"ZV_UNSET\")", "get_env(name=\"ZV_UNSET\", default=A)", "throw(message=A)", "throw(message=\"stop\")"];
+        let tests = ["defined", "undefined", "odd", "even", "string", "number", "iterable", "object", "divisibleby(0)", "divisibleby(-1)", "divisibleby(A)", "starting_with(A)", "ending_with(A)", "containing(A)", "matching(A)", "matching(\"(\")", "matching(\"(a*)*b\")"];
+        let mut cases: Vec<String> = vec![];
+        for v in values { for f in filters0 { cases.push(format!("{{{{ {v} | {f} }}}}")); } }
+        for v in ["0", "99999999999999999", "\"x\"", "[1, 2]", "custom", "-1"] { for f in filters1 { for a in args { cases.push(format!("{{{{ {v} | {} }}}}", f.replace('A', a))); } } }
+        for f in functions { for a in args { if f.starts_with("range(") && a.len() > 4 && !f.contains("step_by") { continue; } cases.push(format!("{{{{ {} }}}}", f.replace('A', a))); } }
+        // (mid-sized range() ends are left out on purpose: they are a legitimate way to ask for gigabytes)
+        for v in values { for t in tests { for a in ["0", "\"x\"", "-1"] { cases.push(format!("{{% if {v} is {} %}}y{{% endif %}}", t.replace('A', a))); } } }
+        cases.sort(); cases.dedup();
+        cases.par_iter().map(|tpl| {
+            let mut st = Stats::default();
+            st.inc("template_builtin_runs"); st.inc("process_runs");
+            let args = a(&["version", "--source", "none", "--tag-version", "1.2.3", "--bumped-branch", "feature/x", "--output-template", tpl]);
+            let o = proc::run(&proc::Run { program: &proc::zerv_bin(), args: args.clone(), stdin: None, env: proc::base_env(), cwd: None, timeout: std::time::Duration::from_secs(20) }).unwrap_or_else(|e| machinery_error(&format!("cannot spawn zerv: {e}")));
+            let key = format!("[template-builtin] {tpl}");
+            let case = json!({"kind":"template-builtin","template":tpl});
+            if o.timed_out { ctx.violation("no_termination_within_horizon", key, case, "zerv was still running after 20 s".into()); return st; }
+            if o.status == 101 || o.status < 0 || o.stderr_str().contains("panicked at") || o.stderr_str().contains("overflowed its stack") || o.stderr_str().contains("memory allocation") {
+                ctx.violation("process_panic_or_abort", key, case, format!("exit {} {}", o.status, truncate(o.stderr_str().trim(), 200)));
+            } else if o.status == 0 {
+                st.inc("process_ok");
+                if !o.stdout.ends_with(b"\n") { ctx.violation("success_without_result_line", key, case, format!("stdout {:?}", truncate(&o.stdout_str(), 80))); }
+            } else {
+                st.inc("process_failed");
+                if !o.stdout.is_empty() { ctx.violation("result_printed_on_failure", key.clone(), case.clone(), format!("exit {} with stdout {:?}", o.status, truncate(&o.stdout_str(), 80))); }
+                if o.stderr.is_empty() { ctx.violation("failure_without_diagnostic", key, case, format!("exit {} with empty stderr", o.status)); }
+            }
+            st
+        }).reduce(Stats::default, Stats::merge)
+    };
+
+    // (d3) the process boundary itself: arguments that are not UTF-8 (the operating system allows any bytes) and a stdout that
+    // cannot take the result (full device, closed descriptor, closed pipe) - for results, help and version texts alike
+    let s_d3 = {
+        let zb = proc::zerv_bin().to_string_lossy().to_string();
+        let mut scripts: Vec<(String, String)> = vec![];
+        for (name, arg) in [("check", "check \"$(printf '\\377')\""), ("check-valid-prefix", "check \"1.0$(printf '\\377\\376')\""), ("tag-version", "version --source none --tag-version \"$(printf '1.2.3\\200')\""), ("bumped-branch", "version --source none --tag-version 1.2.3 --bumped-branch \"$(printf 'f\\351')\""),
+            ("template", "version --source none --tag-version 1.2.3 --output-template \"$(printf '\\303')\""), ("subcommand", "\"$(printf '\\377')\""), ("directory", "version -C \"$(printf '/tmp/\\377')\""), ("render", "render \"$(printf '\\355\\240\\200')\"")] {
+            scripts.push((format!("non-utf8-argument {name}"), format!("exec \"$0\" {arg}")));
+        }
+        for (name, cmd) in [("version", "version --source none --tag-version 1.2.3"), ("help", "--help"), ("sub-help", "version --help"), ("short-help", "-h"), ("version-flag", "--version"), ("llm-help", "--llm-help"), ("check", "check 1.2.3"), ("render", "render 1.2.3"), ("usage-error", "--bogus")] {
+            scripts.push((format!("stdout-full {name}"), format!("exec \"$0\" {cmd} > /dev/full")));
+            scripts.push((format!("stdout-closed {name}"), format!("exec \"$0\" {cmd} >&-")));
+            scripts.push((format!("stdout-closed-pipe {name}"), format!("\"$0\" {cmd} 2>\"$1\" | true; cat \"$1\" >&2")));
+            scripts.push((format!("stderr-full {name}"), format!("exec \"$0\" {cmd} 2> /dev/full")));
+            scripts.push((format!("stderr-closed {name}"), format!("exec \"$0\" {cmd} 2>&-")));
+        }
+        let tmp = gitx::scratch_root().join("d3");
+        let _ = std::fs::create_dir_all(&tmp);
+        let st = scripts.par_iter().enumerate().map(|(i, (name, script))| {
+            let mut st = Stats::default();
+            st.inc("process_boundary_runs"); st.inc("process_runs");
+            let errfile = tmp.join(format!("err{i}")).to_string_lossy().to_string();
+            let o = proc::run(&proc::Run { program: std::path::Path::new("/bin/sh"), args: vec!["-c".into(), script.clone(), zb.clone(), errfile], stdin: None, env: proc::base_env(), cwd: None, timeout: std::time::Duration::from_secs(30) }).unwrap_or_else(|e| machinery_error(&format!("cannot spawn sh: {e}")));
+            let key = format!("[process-boundary {name}]");
+            let case = json!({"kind":"process-boundary","script":script});
+            if o.timed_out { ctx.violation("no_termination_within_horizon", key, case, "still running after 30 s".into()); return st; }
+            if o.status == 101 || o.status == 134 || o.stderr_str().contains("panicked at") { ctx.violation("process_panic_or_abort", key, case, format!("exit {} {}", o.status, truncate(o.stderr_str().trim(), 200))); return st; }
+            // a result that could not be written is a failure: status 0 is only right when nothing had to be written to the broken stream
+            // (--llm-help hands its text to a pager process: whether the pager could write it is not zerv's status)
+            if name.starts_with("stdout-full") && o.status == 0 && !name.ends_with("usage-error") && !name.ends_with("llm-help") { ctx.violation("success_although_result_not_written", key.clone(), case.clone(), "exit 0 with stdout on a full device".into()); }
+            if name.starts_with("non-utf8") && o.status == 0 && !o.stdout.is_empty() && !name.contains("bumped-branch") { ctx.violation("result_for_undecodable_argument", key, case, format!("stdout {:?}", truncate(&o.stdout_str(), 80))); }
+            st
+        }).reduce(Stats::default, Stats::merge);
+        let _ = std::fs::remove_dir_all(&tmp);
+        st
+    };
+
     // (e) hostile repository states: long and non-ASCII reference names (git's answers then exceed any fixed-size buffer or
     // preview and contain multi-byte characters at every byte offset), many tags on one commit; plain, -v and RUST_LOG=trace
     let s_e = {
@@ -408,7 +487,7 @@ fn main() {
     let s_c = git_faults(&ctx, quick);
     let _ = std::fs::remove_dir_all(gitx::scratch_root());
 
-    let all = s_a.merge(s_b).merge(s_h).merge(s_c).merge(s_d).merge(s_e);
+    let all = s_a.merge(s_b).merge(s_h).merge(s_c).merge(s_d).merge(s_d2).merge(s_d3).merge(s_e);
     let mut cov = Coverage::default();
     cov.evaluations = all.get("inprocess_runs") + all.get("process_runs");
     cov.states = jobs.len() as u64 + all.get("fault_plans");
